@@ -1,0 +1,139 @@
+//go:build verif
+
+// Contracts for the root package textwire, read by the verification engine in /verif (twv).
+// Comments only; compiled only with the build tag "verif".
+package textwire
+
+// package-level state exists once the package is initialised
+//@ globalinv userConfig != nil && customFunc != nil && customFunc.Str != nil && customFunc.Arr != nil
+//@      && customFunc.Int != nil && customFunc.Float != nil && customFunc.Bool != nil
+
+// every loaded program is a well-formed tree (delivered by the parser; see ParseProgram)
+//@ pred TplInv(t *Template) = t != nil && forallkey(t.programs, k, t.programs[k] != nil && WFNode(iface(t.programs[k])))
+
+// ---- string / file API ----
+
+// parsing builds a fresh lexer, parser and tree; it writes nothing that existed before
+// (the parser's own frame is stated type-wide, so this frame is trusted, not proved)
+//@ func parseStr
+//@   ensures len(result1) == 0 ==> result0 != nil && WFNode(iface(result0))
+//@   ensures len(result1) != 0 ==> result0 == nil
+//@   modifies *
+//@   trusted-modifies nothing
+
+//@ func parseProgram
+//@   ensures result1 == nil && result2 == nil ==> result0 != nil && fresh(result0) && WFNode(iface(result0))
+//@   ensures result1 == nil && result2 == nil ==> forall(i, 0, len(result0.Components), result0.Components[i].Block == nil)
+//@   ensures result1 == nil && result2 == nil ==> forallkey(result0.Reserves, k, result0.Reserves[k].Name.Value == k)
+//@   ensures result1 == nil && result2 == nil ==> forall(i, 0, len(result0.Components), forall(j, 0, len(result0.Components), i != j ==> result0.Components[i] != result0.Components[j]))
+//@   modifies *
+//@   trusted-modifies nothing
+
+// C15/C16: a render must not write package-level state, the loaded programs or the caller's data
+//@ func EvaluateString
+//@   ensures result1 != nil ==> result0 == ""
+//@   modifies nothing
+
+//@ func EvaluateFile
+//@   ensures result1 != nil ==> result0 == ""
+//@   modifies nothing
+
+//@ func fileContent
+//@   modifies nothing
+//@ func joinPaths
+//@   modifies nothing
+//@ func getFullPath
+//@   modifies nothing
+//@ func nameFromPath
+//@   modifies nothing
+
+//@ func errorPage
+//@   requires failErr != nil
+//@   ensures result1 != nil ==> result0 == ""
+//@   modifies nothing
+
+// ---- templates ----
+
+//@ func (t *Template) String
+//@   requires TplInv(t)
+//@   ensures result1 != nil ==> result0 == ""
+//@   modifies nothing
+
+//@ func (t *Template) responseErrorPage
+//@   requires TplInv(t)
+//@   modifies nothing
+
+// Response writes the page, or exactly one error page, and reports the failure
+//@ func (t *Template) Response
+//@   requires TplInv(t)
+//@   call String#0: bind rendered
+//@   call fmt.Fprint#0: assert page-only-on-success: rendered1 == nil
+//@   call responseErrorPage#0: assert custom-page-only-when-configured-and-not-debugging: rendered1 != nil && userConfig.ErrorPagePath != "" && !userConfig.DebugMode
+//@   call errorPage#0: assert builtin-page-otherwise: rendered1 != nil && (userConfig.ErrorPagePath == "" || userConfig.DebugMode)
+//@   goal nil-iff-rendered: (result == nil) == (rendered1 == nil)
+//@   modifies nothing
+
+// ---- custom functions (C20): one registration per name and receiver type ----
+
+//@ func RegisterStrFunc
+//@   ensures old(has(customFunc.Str, name)) ==> result != nil && customFunc.Str[name] == old(customFunc.Str[name])
+//@   ensures !old(has(customFunc.Str, name)) ==> result == nil && has(customFunc.Str, name) && customFunc.Str[name] == fn
+//@   ensures forallkey(customFunc.Str, k, k != name ==> old(has(customFunc.Str, k)) && customFunc.Str[k] == old(customFunc.Str[k]))
+//@   modifies contents(customFunc.Str)
+//@ func RegisterArrFunc
+//@   ensures old(has(customFunc.Arr, name)) ==> result != nil && customFunc.Arr[name] == old(customFunc.Arr[name])
+//@   ensures !old(has(customFunc.Arr, name)) ==> result == nil && has(customFunc.Arr, name) && customFunc.Arr[name] == fn
+//@   ensures forallkey(customFunc.Arr, k, k != name ==> old(has(customFunc.Arr, k)) && customFunc.Arr[k] == old(customFunc.Arr[k]))
+//@   modifies contents(customFunc.Arr)
+//@ func RegisterIntFunc
+//@   ensures old(has(customFunc.Int, name)) ==> result != nil && customFunc.Int[name] == old(customFunc.Int[name])
+//@   ensures !old(has(customFunc.Int, name)) ==> result == nil && has(customFunc.Int, name) && customFunc.Int[name] == fn
+//@   ensures forallkey(customFunc.Int, k, k != name ==> old(has(customFunc.Int, k)) && customFunc.Int[k] == old(customFunc.Int[k]))
+//@   modifies contents(customFunc.Int)
+//@ func RegisterFloatFunc
+//@   ensures old(has(customFunc.Float, name)) ==> result != nil && customFunc.Float[name] == old(customFunc.Float[name])
+//@   ensures !old(has(customFunc.Float, name)) ==> result == nil && has(customFunc.Float, name) && customFunc.Float[name] == fn
+//@   ensures forallkey(customFunc.Float, k, k != name ==> old(has(customFunc.Float, k)) && customFunc.Float[k] == old(customFunc.Float[k]))
+//@   modifies contents(customFunc.Float)
+//@ func RegisterBoolFunc
+//@   ensures old(has(customFunc.Bool, name)) ==> result != nil && customFunc.Bool[name] == old(customFunc.Bool[name])
+//@   ensures !old(has(customFunc.Bool, name)) ==> result == nil && has(customFunc.Bool, name) && customFunc.Bool[name] == fn
+//@   ensures forallkey(customFunc.Bool, k, k != name ==> old(has(customFunc.Bool, k)) && customFunc.Bool[k] == old(customFunc.Bool[k]))
+//@   modifies contents(customFunc.Bool)
+
+// ---- loading (C06, C07, C18) ----
+
+//@ func Configure
+//@   ensures opt != nil ==> userConfig.DebugMode == opt.DebugMode
+//@   ensures usesTemplates
+//@   modifies userConfig.*, usesTemplates
+
+//@ func findTextwireFiles
+//@   ensures result1 == nil ==> result0 != nil
+//@   modifies nothing
+
+//@ func applyLayoutToProgram
+//@   requires prog != nil && WFNode(iface(prog))
+//@   goal untouched-without-use: prog.UseStmt == nil ==> result == nil && prog.Statements == old(prog.Statements)
+//@   goal layout-replaces-page: result == nil && old(prog.UseStmt) != nil ==> len(prog.Statements) == 1 && prog.Statements[0] == iface(prog.UseStmt) && prog.UseStmt.Program != nil && prog.UseStmt.Program.IsLayout
+//@   modifies prog.Statements, prog.UseStmt.Program, anyfield(ast.ReserveStmt.Insert)
+
+//@ func applyComponentToProgram
+//@   requires prog != nil && forall(i, 0, len(prog.Components), prog.Components[i].Block == nil)
+//@   requires forall(i, 0, len(prog.Components), forall(j, 0, len(prog.Components), i != j ==> prog.Components[i] != prog.Components[j]))
+//@   goal independent: result == nil ==> forall(i, 0, len(prog.Components), forall(j, 0, len(prog.Components), i != j && prog.Components[i].Block != nil ==> prog.Components[i].Block != prog.Components[j].Block))
+//@   modifies anyfield(ast.ComponentStmt.Block), anyfield(ast.SlotStmt.Body)
+//@   loop 0: invariant forall(i, 0, len(prog.Components), allocated(prog.Components[i].Block))
+//@   call parseProgram#0: use wfProgram(ret0)
+//@   loop 0: invariant forall(i, 0, len(prog.Components), forall(j, 0, len(prog.Components), i != j && prog.Components[i].Block != nil ==> prog.Components[i].Block != prog.Components[j].Block))
+
+//@ func parsePrograms
+//@   ensures result1 != nil ==> result0 == nil
+//@   ensures result1 == nil ==> result0 != nil && forallkey(result0, k, result0[k] != nil && WFNode(iface(result0[k])) && len(result0[k].Reserves) == 0)
+//@   modifies *
+//@   loop 0: invariant result != nil && fresh(result) && forallkey(result, k, result[k] != nil && WFNode(iface(result[k])) && len(result[k].Reserves) == 0)
+
+//@ func NewTemplate
+//@   ensures result1 != nil ==> result0 == nil
+//@   ensures result1 == nil ==> TplInv(result0)
+//@   modifies *
